@@ -53,6 +53,12 @@ POSITIONS = {
     "cte_name": (["INSERT INTO ttgt WITH {N} AS (SELECT ca FROM tsrc) SELECT ca FROM {N}"],
                  lambda n: Expect(sources=[T("tsrc")], targets=[T("ttgt")],
                                   pairs=[(C(T("tsrc"), "ca"), C(T("ttgt"), "ca"))])),
+    "cte_name_qualifier": (["INSERT INTO ttgt WITH {N} AS (SELECT ca FROM tsrc) SELECT {N}.ca FROM {N}"],
+                           lambda n: Expect(sources=[T("tsrc")], targets=[T("ttgt")],
+                                            pairs=[(C(T("tsrc"), "ca"), C(T("ttgt"), "ca"))])),
+    "cte_name_qualifier_join": (["INSERT INTO ttgt WITH {N} AS (SELECT ca, i FROM tsrc) SELECT {N}.ca FROM {N} JOIN tsrd AS x ON {N}.i = x.i"],
+                                lambda n: Expect(sources=[T("tsrc"), T("tsrd")], targets=[T("ttgt")],
+                                                 pairs=[(C(T("tsrc"), "ca"), C(T("ttgt"), "ca"))])),
     "two_stmt_table": (["INSERT INTO {N} SELECT ca FROM tsrc", "INSERT INTO ttgt SELECT ca FROM {N}"],
                        lambda n: Expect(sources=[T("tsrc")], targets=[T("ttgt")], intermediates=[T(n)],
                                         pairs=[(C(T("tsrc"), "ca"), C(T("ttgt"), "ca"))])),
